@@ -248,6 +248,14 @@ class Ctx:
             if d in opn:
                 self.known_hit[d] = self.known_hit.get(d, 0) + 1
 
+    def enough(self):
+        """fail fast: with 25 violations on record further exploration of a broken tree only costs time"""
+        if len(self.violations) >= 25:
+            if not any("stopped early" in n for n in self.notes):
+                self.notes.append("stopped early after 25 violations (fail fast): the remaining inputs were not explored")
+            return True
+        return False
+
     def open_devs(self):
         return sorted({f["deviation"] for f in self.open if f.get("deviation")} | self.background)
 
@@ -401,6 +409,8 @@ class VectorEngine(Engine):
             if not vecs:
                 raise tlc.ToolError(f"{module}/{cfg} produced no vectors (vacuous model run)")
             self.flow_a(ctx, vecs, f"{cfg}")
+            if ctx.enough():
+                return
         n = self.random_n.get(ctx.tier, 0)
         if self.trace and n:
             self.flow_b(ctx, n)
